@@ -39,5 +39,15 @@ for name, m in sorted(pn.modules.items()):
             if isinstance(b, (ast.FunctionDef, ast.AsyncFunctionDef)):
                 key = '%s:%s%s' % (name, (cls + '.') if cls else '', b.name)
                 fps[key] = {'fp': function_fingerprint(b), 'fpa': function_fingerprint(b, True), 'sig': list(_signature(b))}
+                # nested functions (a refactoring may lift them to module level)
+                def nested(node, prefix):
+                    for x in ast.iter_child_nodes(node):
+                        if isinstance(x, (ast.FunctionDef, ast.AsyncFunctionDef)):
+                            k2 = '%s.%s' % (prefix, x.name)
+                            fps[k2] = {'fp': function_fingerprint(x), 'fpa': function_fingerprint(x, True), 'sig': list(_signature(x))}
+                            nested(x, k2)
+                        elif not isinstance(x, (ast.ClassDef, ast.Lambda)):
+                            nested(x, prefix)
+                nested(b, key)
 json.dump({'functions': funcs, 'constants': sorted(set(consts)), 'fingerprints': fps}, open(REF_TABLE, 'w'), indent=0)
 print(len(funcs), 'functions', len(set(consts)), 'constants')
